@@ -78,7 +78,7 @@ pub fn check(case: &C01Case, st: &mut Stats) -> Verdict {
     let got = must_ok("SDJWTVerifier::new", sut::verify(&presentation, spec.fmt, spec.alg, kb))?;
 
     let expected = expected_claims(&tree, &sel.paths, spec.holder);
-    if got != expected {
+    if crate::exact::differs(&got, &expected) {
         let mut extra = String::new();
         for k in ["_sd", "...", "_sd_alg"] {
             if has_key_anywhere(&got, k) {
